@@ -219,6 +219,12 @@ def run(ctx):
         mpi = [i + 1 for i, t in enumerate(sig) if t.startswith("&E") or t.startswith("&'")]
         target = r"^writers::write_err$" if mode == "direct" else r"^resultset::QueryResultWriter::<'a, W>::error$"
         sites = list(b.calls_to(target))
+        if not sites and mode != "direct":
+            # the result writer's `error` inlined into the row writer (finalize, then the ERR writer itself): the same obligations on the
+            # direct call (the pending terminator is C03's and C13.entry-points' own clause below)
+            sites = list(b.calls_to(r"^writers::write_err$"))
+            if sites:
+                mode = "direct"
         if not ctx.ob("C13.entry-points", len(sites) == 1 and len(kpi) == 1,
                       "%s must call the ERR writer exactly once (found %d)" % (b.path, len(sites)), fn=b.path, construct="call", callee=target):
             continue
